@@ -6,6 +6,7 @@ produced late, repeatedly, or never; the theorems hold in EVERY state it can rea
 import Orda.Proofs.Protocol
 import Orda.Model.Wired
 import Orda.Proofs.ProtocolJoin
+import Orda.Proofs.ProtoNet
 namespace Orda.Props.C07
 open Orda
 
@@ -92,5 +93,49 @@ theorem old_client_lost_operations :
 /-- non-vacuity: the classic scenario (response lost, another client pushes in between, retry, the lost
     response arrives late, the first request is served again) is reachable -/
 theorem classic_scenario_reachable : PReach ["a", "b"] PEx.E13 := PEx.reach
+
+/-! ### at the level of the DATATYPES (`PNet`, Proofs/ProtoNet): REAL replicas (`Replica.call`, `execRemoteBase`) driven by the
+push-pull protocol under the ADVERSARIAL network of Proofs/Protocol — any request served any number of times, any response
+delivered any number of times, in any order, or never.  The protocol view of every reachable state is a reachable protocol state
+(`PNet.proj_reach`: J1–J3 apply) and its datatype view is a reachable state of the ideal-log system (`PNet.net_view`). -/
+
+open Orda.PNet in
+/-- whatever was lost, duplicated or delayed: when every client is caught up, all replicas are EQUAL (lists, counters) … -/
+theorem faults_never_break_list_or_counter_convergence (cuids : List String) (S : RSys)
+    (h : RReach .list cuids S ∨ RReach .counter cuids S) (hq : QuiescentR S) (i j : Nat)
+    (hi : i < S.clients.length) (hj : j < S.clients.length) : S.clients[i].r.state = S.clients[j].r.state := by
+  rcases h with h | h
+  · exact faults_list_quiescent_converged S h hq i j hi hj
+  · exact faults_counter_quiescent_converged S h hq i j hi hj
+
+open Orda.PNet in
+/-- … show the same reads, Size and JSON view (maps) … -/
+theorem faults_never_break_map_convergence (cuids : List String) (S : RSys) (h : RReach .map cuids S) (hq : QuiescentR S)
+    (i j : Nat) (hi : i < S.clients.length) (hj : j < S.clients.length) (mi mj : LwwMap)
+    (hsi : S.clients[i].r.state = .map mi) (hsj : S.clients[j].r.state = .map mj) : SameReads mi mj :=
+  faults_map_quiescent_converged S h hq i j hi hj mi mj hsi hsj
+
+open Orda.PNet Orda.DA in
+/-- … and hold `ASim`-equal documents with the same JSON value (documents) -/
+theorem faults_never_break_document_convergence (cuids : List String) (S : RSys) (h : RReach .document cuids S)
+    (hq : QuiescentR S) (i j : Nat) (hi : i < S.clients.length) (hj : j < S.clients.length) (di dj : Doc)
+    (hsi : S.clients[i].r.state = .doc di) (hsj : S.clients[j].r.state = .doc dj) :
+    ASim di dj ∧ di.view.canon = dj.view.canon :=
+  faults_doc_quiescent_converged S h hq i j hi hj di dj hsi hsj
+
+open Orda.PNet in
+/-- no double application, no loss, also BEFORE quiescence: two replicas that have the same operations hold the same list
+    state, whatever the network did (maps, counters, documents: `PNet.faults_*_same_operations_*`) -/
+theorem faults_same_operations_same_list_state (cuids : List String) (S : RSys) (h : RReach .list cuids S) (i j : Nat)
+    (hi : i < S.clients.length) (hj : j < S.clients.length) (hso : SameOpsR S i j) :
+    S.clients[i].r.state = S.clients[j].r.state :=
+  faults_list_same_operations_same_state S h i j hi hj hso
+
+open Orda.PNet in
+/-- applying ANY response ever produced — the first time, again, or late — never makes a replica refuse or panic -/
+theorem any_response_can_be_applied_at_any_time (typ : DtType) (cuids : List String) (S : RSys) (h : RReach typ cuids S)
+    (p : PResp) (cl : RClient) (hp : p ∈ S.resps) (hc : S.clients[p.i]? = some cl) :
+    ExecOK cl.r (newForeignOps cl.cuid cl.cp p.cp p.ops) :=
+  faults_deliveries_exact h hp hc
 
 end Orda.Props.C07
